@@ -39,7 +39,11 @@ Allowed(c) ==
     [] OTHER -> {"ok"}
 \* when parsing succeeds and the graph is acyclic, every referrer must see what the
 \* inlined document gives (T1) and the expanded document must parse back to it (T4)
-NeedsEqual(c) == c.shape \in {"chain", "cross", "deep", "diamond"}
+NeedsEqual(c) == c.shape \in {"chain", "cross", "deep", "diamond", "sibling"}
+\* Dev_RefSiblingWrittenIntoTarget: jsonschema.Parser.parse1 applies default / enum /
+\* discriminator / x-ogen-* written beside a $ref to the schema the resolver returned, which
+\* is the cached, shared target: the other referrers (and the component) see them too
+SiblingWitness(c) == c.shape = "sibling"
 
 (*********************** implementation layer ******************************)
 \* acceptor state: ctxs : ctx id -> [stack, limit]; stored : kind -> set of keys
